@@ -1,8 +1,14 @@
 """C16 cases: results depend only on width, signedness and value.
  (i)  the same request is sent to every digit-type configuration of equal width; the crate's answers must be
-      identical (post hook: crate vs crate), and each is also compared with model and spec as usual;
+      identical (post hook: crate vs crate), and each is also compared with model and spec as usual.  The
+      vocabulary is the union of the vocabularies of C01-C03, C05-C15, C17-C19 (every function of the table
+      `op_digit_independent` plus formatting, byte order / slices, float casts, num_traits / num_integer entry
+      points, operator forms); operands are shaped for the digits of a RANDOM member of the group;
+ (ia) the `As` cast itself between the equal-width representations (and TryFrom) is the identity on the pattern;
  (ii) narrow vs wide configuration: an operation whose exact result is representable in the narrow type gives,
-      on zero-/sign-extended operands in the wide type, the extension of the narrow result;
+      on zero-/sign-extended operands in the wide type, the extension of the narrow result (every form of
+      add, sub, mul, div, rem, pow, shl, comparison, decimal parse / print); the extension is also performed by
+      the crate's own `As` cast where the cast grid has both types;
  (iii) constants and the alias table; the alias table is re-read from /repo/src/types.rs on every run and turned
       into lean/Bnum/Generated/Aliases.lean, whose theorem is re-checked by the kernel (pre hook)."""
 import os
@@ -11,30 +17,146 @@ from .common import *
 from .c02 import mul_pair
 from .c03 import div_pair
 from .knuth import addback_pairs
-from .c10 import numeral
+from .c10 import numeral, str_case, digits_case
+from .c06 import runs_value
+from .c07 import cmp_pair
+from .c08 import pow_case, log_case
+from .c11 import out_value
+from .c12 import TRAITS as FMT_TRAITS, FLAGS as FMT_FLAGS, fmt_value
+from .c14 import int_case, float_case, FMT as FLOAT_FMT
+from .c15 import slice_case
+from .c18 import gcd_pair, root_case
+from .c19 import prim_value, big_value, PRIMS as PRIMS19
 
-HARNESS_BINS = ["c01", "c02", "c03", "c05", "c06", "c07", "c08", "c10", "c16"]
-GROUPS = {16: ["8x2", "16x1"], 32: ["8x4", "16x2", "32x1"], 64: ["8x8", "16x4", "32x2", "64x1"],
-          128: ["8x16", "32x4", "64x2"], 192: ["32x6", "64x3"], 320: ["8x40", "16x20", "32x10", "64x5"]}
-EXT = [("8x1", "8x3"), ("8x3", "64x1"), ("64x1", "64x3"), ("16x1", "32x3"), ("64x2", "64x16"), ("8x2", "16x5")]
-EXT_THOROUGH = EXT + [("64x2", "64x128"), ("32x2", "8x17"), ("8x5", "64x4")]
+HARNESS_BINS = ["c01", "c02", "c03", "c05", "c06", "c07", "c08", "c09", "c10", "c12", "c13", "c14", "c15", "c16", "c17", "c18", "c19"]
+# every width that `for_config!` (harness/src/lib.rs) can build from more than one digit type
+GROUPS = {16: ["8x2", "16x1"], 32: ["8x4", "16x2", "32x1"], 64: ["8x8", "16x4", "32x2", "64x1"], 96: ["8x12", "32x3"],
+          128: ["8x16", "32x4", "64x2"], 192: ["8x24", "16x12", "32x6", "64x3"], 320: ["8x40", "16x20", "32x10", "64x5"],
+          512: ["8x64", "64x8"]}
+HUGE_GROUP = list(HUGE_CFGS)        # 8192 bits from all four digit types
+# the c17 bin (operator forms) instantiates a reduced list: equal-width sets inside it
+GROUPS17 = {16: ["8x2", "16x1"], 64: ["16x4", "32x2", "64x1"]}
+# equal-width sets of the cast grid (bins c09 / c13, `for_type!`)
+CAST_GROUPS = {16: ["8x2", "16x1"], 32: ["16x2", "32x1"], 48: ["16x3"], 64: ["8x8", "16x4", "32x2", "64x1"], 96: ["32x3"],
+               128: ["8x16", "32x4", "64x2"], 192: ["32x6", "64x3"], 24: ["8x3"], 136: ["8x17"]}
+CAST_TYPES = set(f"{w}x{n}" for w, ns in {8: [1, 2, 3, 5, 8, 16, 17], 16: [1, 2, 3, 4, 5], 32: [1, 2, 3, 4, 6], 64: [1, 2, 3]}.items() for n in ns)
+EXT = [("8x1", "8x3"), ("8x3", "64x1"), ("64x1", "64x3"), ("16x1", "32x3"), ("64x2", "64x16"), ("8x2", "16x5"),
+       ("8x5", "16x4"), ("32x2", "8x17"), ("16x5", "32x3"), ("8x17", "64x3"), ("64x3", "8x40"),
+       # into the widest instantiation of every digit type
+       ("8x16", "8x1024"), ("64x5", "16x512"), ("16x9", "32x256"), ("32x6", "64x128")]
+EXT_THOROUGH = EXT + [("64x2", "64x128"), ("8x5", "64x4"), ("32x1", "8x5"), ("16x3", "64x1"), ("64x8", "8x1024"), ("8x7", "64x1")]
 CONSTS = ["MIN", "MAX", "ZERO", "ONE", "TWO", "THREE", "FOUR", "FIVE", "SIX", "SEVEN", "EIGHT", "NINE", "TEN"]
 NEGS = ["NEG_ONE", "NEG_TWO", "NEG_THREE", "NEG_FOUR", "NEG_FIVE", "NEG_SIX", "NEG_SEVEN", "NEG_EIGHT", "NEG_NINE", "NEG_TEN"]
 ALIASES = ["U128", "U256", "U512", "U1024", "U2048", "U4096", "U8192", "I128", "I256", "I512", "I1024", "I2048", "I4096", "I8192"]
+# every instantiation the harness can build (for the constants)
+ALL_CFGS = sorted(set(THOROUGH_CFGS + HUGE_CFGS + [c for g in GROUPS.values() for c in g]), key=lambda c: (wn(c)[0], wn(c)[1]))
+
+# ---------------------------------------------------------------------------------------------- vocabulary
+# (op, kind) — kind names the argument generator in `_args`.  `m_` kinds carry the build-profile word.
+V01_BOTH = [(o, "ab") for o in ["overflowing_add", "overflowing_sub", "checked_add", "checked_sub", "wrapping_add", "wrapping_sub",
+                               "saturating_add", "saturating_sub", "strict_add", "strict_sub", "abs_diff"]] + \
+           [(o, "a") for o in ["overflowing_neg", "checked_neg", "wrapping_neg", "strict_neg"]] + \
+           [("carrying_add", "abc"), ("borrowing_sub", "abc"), ("midpoint", "m_ab")]
+V01_U = [(o, "ab") for o in ["overflowing_add_signed", "checked_add_signed", "wrapping_add_signed", "saturating_add_signed", "strict_add_signed"]]
+V01_I = [(o, "ab") for o in ["overflowing_add_unsigned", "overflowing_sub_unsigned", "checked_add_unsigned", "checked_sub_unsigned",
+                             "wrapping_add_unsigned", "wrapping_sub_unsigned", "saturating_add_unsigned", "saturating_sub_unsigned",
+                             "strict_add_unsigned", "strict_sub_unsigned"]] + \
+        [(o, "a") for o in ["overflowing_abs", "checked_abs", "wrapping_abs", "saturating_abs", "saturating_neg", "unsigned_abs", "strict_abs"]] + \
+        [("abs", "m_a")]
+V02_BOTH = [(o, "mul") for o in ["overflowing_mul", "checked_mul", "wrapping_mul", "saturating_mul", "strict_mul"]] + [("mul", "m_mul")]
+V02_U = [("widening_mul", "mul"), ("carrying_mul", "mul3")]
+V03_BOTH = [(o, "div") for o in ["checked_div", "checked_rem", "checked_div_euclid", "checked_rem_euclid",
+                                 "overflowing_div", "overflowing_rem", "overflowing_div_euclid", "overflowing_rem_euclid",
+                                 "wrapping_div", "wrapping_rem", "wrapping_div_euclid", "wrapping_rem_euclid", "saturating_div",
+                                 "div", "rem", "div_euclid", "rem_euclid", "strict_div", "strict_rem", "strict_div_euclid",
+                                 "strict_rem_euclid", "checked_next_multiple_of"]] + \
+           [(o, "m_div") for o in ["div_floor", "div_ceil", "next_multiple_of"]]
+V05_BOTH = [(o, "sh") for o in ["overflowing_shl", "overflowing_shr", "checked_shl", "checked_shr", "wrapping_shl", "wrapping_shr",
+                                "unbounded_shl", "unbounded_shr", "rotate_left", "rotate_right", "strict_shl", "strict_shr"]] + \
+           [("shl", "m_sh"), ("shr", "m_sh")]
+V06_BOTH = [(o, "ab") for o in ["bitand", "bitor", "bitxor"]] + \
+           [(o, "bits") for o in ["not", "swap_bytes", "reverse_bits", "is_power_of_two", "is_zero", "is_one", "count_ones", "count_zeros",
+                                  "leading_zeros", "trailing_zeros", "leading_ones", "trailing_ones", "bits"]] + [("bit", "bit")]
+V06_U = [("checked_next_power_of_two", "bits"), ("wrapping_next_power_of_two", "bits"), ("next_power_of_two", "m_a"),
+         ("set_bit", "setbit"), ("power_of_two", "p2")]
+V07_BOTH = [(o, "cmp") for o in ["eq", "ne", "cmp", "lt", "le", "gt", "ge", "max", "min", "op_eq", "op_ne", "op_lt", "op_le", "op_gt", "op_ge",
+                                 "ord_cmp", "partial_cmp", "ord_max", "ord_min"]] + [("clamp", "clamp"), ("ord_clamp", "clamp")]
+V07_I = [(o, "a") for o in ["signum", "is_positive", "is_negative"]]
+V08_BOTH = [(o, "pow") for o in ["overflowing_pow", "checked_pow", "wrapping_pow", "saturating_pow", "strict_pow"]] + \
+           [("pow", "m_pow"), ("checked_ilog", "log"), ("ilog", "m_log"), ("checked_ilog2", "log1"), ("checked_ilog10", "log1"),
+            ("ilog2", "m_log1"), ("ilog10", "m_log1")]
+V10_BOTH = [("from_str_radix", "str_r"), ("parse_str_radix", "str_r"), ("from_str", "str10"), ("parse_bytes", "bytes_r"),
+            ("from_radix_be", "digs_be"), ("from_radix_le", "digs_le"), ("to_str_radix", "out_r"), ("to_radix_be", "out_R"),
+            ("to_radix_le", "out_R"), ("roundtrip_str", "out_r")]
+V12_BOTH = [("fmt", "fmt")]
+V14_BOTH = [("to_f32", "tof32"), ("to_f64", "tof64"), ("from_f32", "fromf32"), ("from_f64", "fromf64")]
+V15_BOTH = [("from_be_slice", "slice_be"), ("from_le_slice", "slice_le")] + [(o, "a") for o in ["to_be", "to_le", "from_be", "from_le"]]
+V18_BOTH = [("nt_gcd", "m_gcd"), ("nt_lcm", "m_gcd"), ("nt_nth_root", "m_root"), ("nt_sqrt", "m_sqrt"), ("nt_cbrt", "m_cbrt"),
+            ("nt_pow", "m_pow"), ("nt_mul_add", "m_abc")] + \
+           [(o, "div") for o in ["nt_div_floor", "nt_mod_floor", "nt_div_rem", "nt_div_mod_floor", "nt_is_multiple_of", "nt_checked_div",
+                                 "nt_checked_rem", "nt_checked_div_euclid", "nt_checked_rem_euclid", "nt_div_euclid", "nt_rem_euclid"]]
+V18_I = [("nt_abs", "m_a"), ("nt_abs_sub", "m_ab")] + [(o, "a") for o in ["nt_signum", "nt_is_positive", "nt_is_negative"]]
+# trait twins of inherent methods (a random few per repetition)
+V18_TWINS = [(o, "ab") for o in ["nt_checked_add", "nt_checked_sub", "nt_wrapping_add", "nt_wrapping_sub", "nt_saturating_add",
+                                 "nt_saturating_sub", "nt_overflowing_add", "nt_overflowing_sub"]] + \
+            [(o, "mul") for o in ["nt_checked_mul", "nt_wrapping_mul"]] + \
+            [(o, "a") for o in ["nt_is_even", "nt_is_odd", "nt_checked_neg", "nt_wrapping_neg", "nt_count_ones", "nt_count_zeros",
+                                "nt_leading_zeros", "nt_trailing_zeros", "nt_swap_bytes", "nt_to_be", "nt_to_le", "nt_is_zero", "nt_is_one"]] + \
+            [(o, "shW") for o in ["nt_rotate_left", "nt_rotate_right", "nt_unsigned_shl", "nt_unsigned_shr", "nt_signed_shl", "nt_signed_shr"]] + \
+            [(o, "none") for o in ["nt_min_value", "nt_max_value", "nt_zero", "nt_one"]] + [("nt_from_str_radix", "str_r")]
+V19_FLOAT = [("nt_from_f32", "fromf32"), ("nt_from_f64", "fromf64"), ("nt_to_f32", "tof32"), ("nt_to_f64", "tof64"),
+             ("as_f32", "tof32"), ("as_f64", "tof64")]
+# operator forms (bin c17; `GROUPS17` only)
+FORMS17 = ["vv", "vr", "rv", "rr", "as", "asr", "inh"]
+SFORMS17 = ["vv", "vr", "rv", "rr", "as", "asr"]
+PRIM17 = {"u8": (8, False), "u16": (16, False), "u32": (32, False), "u64": (64, False), "u128": (128, False), "usize": (64, False),
+          "i8": (8, True), "i16": (16, True), "i32": (32, True), "i64": (64, True), "i128": (128, True), "isize": (64, True)}
+
+_BIN_OF = {}
+for _tab, _bin in ((V01_BOTH + V01_U + V01_I, "c01"), (V02_BOTH + V02_U, "c02"), (V03_BOTH, "c03"), (V05_BOTH, "c05"),
+                   (V06_BOTH + V06_U, "c06"), (V07_BOTH + V07_I, "c07"), (V08_BOTH, "c08"), (V10_BOTH, "c10"), (V12_BOTH, "c12"),
+                   (V14_BOTH, "c14"), (V15_BOTH, "c15"), (V18_BOTH + V18_I + V18_TWINS, "c18"), (V19_FLOAT, "c19")):
+    for _o, _k in _tab:
+        # `pow` / `nt_pow` etc. are distinct names; the first table that names an op owns it
+        _BIN_OF.setdefault(_o, _bin)
+for _p in PRIMS19:
+    for _o in ("from_", "to_", "as_"):
+        _BIN_OF[_o + _p] = "c19"
+for _o in ("const", "const_bits", "const_bytes", "alias"):
+    _BIN_OF[_o] = "c16"
+for _o in ("cast", "cast_signed", "cast_unsigned", "to_bits", "from_bits"):
+    _BIN_OF[_o] = "c09"
+_BIN_OF["try"] = "c13"
+_RE17 = re.compile(r"^((add|sub|mul|div|rem|bitand|bitor|bitxor)_(vv|vr|rv|rr|as|asr|inh)|(neg|not)_(v|r|inh)|sh[lr]_[a-z0-9]+_(vv|vr|rv|rr|as|asr|inh)"
+                   r"|sum|sum_ref|product|product_ref|default|cmp_[a-z_]+)$")
+
+
+# type sets of `cast_set!` in harness/src/bin/c16.rs: the c16 bin casts between any two members of one set
+C16_CAST_SETS = list(GROUPS.values()) + [HUGE_GROUP] + [list(p) for p in EXT_THOROUGH]
+
+
+def _cast_bin(src, dst):
+    """the bin that can perform `cast src dst`: c09 inside its grid, else c16 when one `cast_set!` has both types"""
+    if src[1:] in CAST_TYPES and dst[1:] in CAST_TYPES:
+        return "c09"
+    if any(src[1:] in g and dst[1:] in g for g in C16_CAST_SETS):
+        return "c16"
+    return None
 
 
 def ROUTE(line):
     op = line.split(" ", 1)[0]
-    if op in ("const", "const_bits", "const_bytes", "alias"):
-        return "c16"
-    if op in ("from_str_radix", "to_str_radix"):
-        return "c10"
+    if op == "cast":
+        t = line.split(" ")
+        return _cast_bin(t[1], t[2]) or "c09"
+    b = _BIN_OF.get(op)
+    if b:
+        return b
+    if _RE17.match(op):
+        return "c17"
+    # (replayed lines of older runs)
     if "pow" in op or "ilog" in op:
         return "c08"
-    if op in ("cmp", "eq", "lt", "max", "min"):
-        return "c07"
-    if op in ("count_ones", "leading_zeros", "trailing_zeros", "bitand", "bitxor", "not", "reverse_bits", "swap_bytes", "bits"):
-        return "c06"
     if "mul" in op:
         return "c02"
     if "sh" in op or "rotate" in op:
@@ -44,16 +166,423 @@ def ROUTE(line):
     return "c01"
 
 
-BIN2 = ["overflowing_add", "overflowing_sub", "checked_add", "saturating_sub", "overflowing_mul", "checked_mul", "saturating_mul",
-        "checked_div", "checked_rem", "checked_div_euclid", "checked_rem_euclid", "cmp", "eq", "lt", "max", "bitand", "bitxor"]
-UN1 = ["overflowing_neg", "count_ones", "leading_zeros", "trailing_zeros", "not", "reverse_bits", "swap_bytes", "bits", "checked_ilog2", "checked_ilog10"]
-SHIFT = ["overflowing_shl", "overflowing_shr", "checked_shl", "checked_shr", "rotate_left", "rotate_right", "unbounded_shr"]
 PAIRS = []          # (index_a, index_b, kind, info) relations checked by post()
 
 
 def ext(v, Wn, Ww, signed):
     z = to_signed(v, Wn) if signed else v
     return pat(z, Ww)
+
+
+def _hexb(b):
+    return b.hex() if b else "-"
+
+
+def _utf8(rng, f):
+    """a str_case whose bytes are valid UTF-8 (from_str_radix takes a &str)"""
+    for _ in range(20):
+        t, b = f()
+        try:
+            b.decode()
+            return t, b
+        except UnicodeDecodeError:
+            continue
+    return "numeral", b"1"
+
+
+def _radix(rng):
+    return rng.choice([2, 3, 8, 10, 10, 16, 16, 32, 36, rng.randrange(2, 37)])
+
+
+def _amount(rng, w, W):
+    return rng.choice([0, 1, 7, 8, 9, 15, 16, 17, 31, 32, 33, 63, 64, 65, w - 1, w, w + 1, W - 1, W, W + 1, 2 * W, rng.randrange(W), rng.randrange(W),
+                       rng.randrange(2 * W + 2), (1 << 32) - 1, 1 << 31, W + w, rng.randrange(1 << 32)])
+
+
+def _args(rng, kind, w, n, sg):
+    """[(rest-of-line, tag)] for one request of the given kind, operands shaped for digits of `w` bits (`n` of them)"""
+    W = w * n
+    M = 1 << W
+
+    def modes(rest, t):
+        return [(f"dbg {rest}", t), (f"rel {rest}", t)]
+    m = kind.startswith("m_")
+    k = kind[2:] if m else kind
+    if k == "ab":
+        t, a, b = pair(rng, w, n)
+        r = f"{hx(a)} {hx(b)}"
+    elif k == "a":
+        t, a = value(rng, w, n)
+        r = hx(a)
+    elif k == "none":
+        return [("", "const")]
+    elif k == "bits":
+        t, a = value(rng, w, n) if rng.random() < 0.5 else runs_value(rng, w, n)
+        r = hx(a)
+    elif k == "abc":
+        t, a, b = pair(rng, w, n)
+        r = f"{hx(a)} {hx(b)} {rng.randrange(2)}"
+    elif k == "mul":
+        t, a, b = mul_pair(rng, w, n, sg)
+        r = f"{hx(a)} {hx(b)}"
+    elif k == "mul3":
+        t, a, b = mul_pair(rng, w, n, sg)
+        r = f"{hx(a)} {hx(b)} {hx(value(rng, w, n)[1])}"
+    elif k == "abc3":
+        t, a, b = mul_pair(rng, w, n, sg) if rng.random() < 0.5 else pair(rng, w, n)
+        r = f"{hx(a)} {hx(b)} {hx(value(rng, w, n)[1])}"
+    elif k == "div":
+        t, a, b = div_pair(rng, w, n, sg)
+        r = f"{hx(a)} {hx(b)}"
+    elif k == "sh":
+        t, a = value(rng, w, n)
+        r = f"{hx(a)} {_amount(rng, w, W)}"
+    elif k == "shW":
+        t, a = value(rng, w, n)
+        # (amounts below BITS: beyond, the PrimInt shifts depend on the build profile)
+        r = f"{hx(a)} {min(W - 1, rng.choice([0, 1, w - 1, w, w + 1, W - 1, rng.randrange(W), rng.randrange(W)]))}"
+    elif k == "bit":
+        t, a = value(rng, w, n)
+        r = f"{hx(a)} {rng.choice([0, w - 1, w, W - 1, W, W + 1, rng.randrange(W), rng.randrange(W), (1 << 32) - 1, W + w - 1, W + w, 63, 64, 65])}"
+    elif k == "setbit":
+        t, a = value(rng, w, n)
+        r = f"{hx(a)} {rng.choice([0, w - 1, w, W - 1, W, W + 1, rng.randrange(W), rng.randrange(W), W + w, 63, 64])} {rng.randrange(2)}"
+    elif k == "p2":
+        t, r = "idx", str(rng.choice([0, w - 1, w, W - 1, W, W + 1, rng.randrange(W), rng.randrange(W), (1 << 32) - 1, 63, 64]))
+    elif k == "cmp":
+        t, a, b = cmp_pair(rng, w, n)
+        r = f"{hx(a)} {hx(b)}"
+    elif k == "clamp":
+        t, a, b = cmp_pair(rng, w, n)
+        c = value(rng, w, n)[1]
+        if rng.random() < 0.5:
+            a, b = b, a
+        r = f"{hx(c)} {hx(a)} {hx(b)}"
+    elif k == "pow":
+        t, a, e = pow_case(rng, w, n, sg)
+        r = f"{hx(a)} {e}"
+    elif k == "log":
+        t, a, b = log_case(rng, w, n, sg)
+        r = f"{hx(a)} {hx(b)}"
+    elif k == "log1":
+        t, a, b = log_case(rng, w, n, sg)
+        r = hx(a)
+    elif k == "str_r":
+        rd = _radix(rng)
+        t, b = _utf8(rng, lambda: str_case(rng, w, n, sg, rd))
+        r = f"{rd} {_hexb(b)}"
+    elif k == "str10":
+        t, b = _utf8(rng, lambda: str_case(rng, w, n, sg, 10))
+        r = _hexb(b)
+    elif k == "bytes_r":
+        rd = _radix(rng)
+        t, b = str_case(rng, w, n, sg, rd)
+        r = f"{rd} {_hexb(b)}"
+    elif k in ("digs_be", "digs_le"):
+        rd = rng.choice([2, 10, 16, 100, 255, 256, rng.randrange(2, 257)])
+        t, ds = digits_case(rng, w, n, rd)
+        r = f"{rd} {_hexb(bytes(reversed(ds)) if k == 'digs_be' else bytes(ds))}"
+    elif k == "out_r":
+        rd = _radix(rng)
+        t, a = out_value(rng, w, n, rd)
+        r = f"{rd} {hx(a)}"
+    elif k == "out_R":
+        rd = rng.choice([2, 10, 16, 100, 255, 256, rng.randrange(2, 257)])
+        t, a = out_value(rng, w, n, rd)
+        r = f"{rd} {hx(a)}"
+    elif k == "fmt":
+        t, a = fmt_value(rng, w, n)
+        r = f"{rng.choice(FMT_TRAITS)} {rng.choice(FMT_FLAGS)} {rng.choice(['-', '-', 0, 1, 5, 12, 40, rng.randrange(0, 41), 255])} {hx(a)}"
+    elif k in ("tof32", "tof64"):
+        t, a = int_case(rng, w, n, FLOAT_FMT["f" + k[3:]][0])
+        r = hx(a)
+    elif k in ("fromf32", "fromf64"):
+        t, f = float_case(rng, "f" + k[5:], W)
+        r = hx(f)
+    elif k == "slice_be":
+        t, b = slice_case(rng, w, n, sg)
+        r = _hexb(b)
+    elif k == "slice_le":
+        t, b = slice_case(rng, w, n, sg)
+        r = _hexb(b[::-1])
+    elif k == "gcd":
+        t, a, b = gcd_pair(rng, w, n, sg)
+        r = f"{hx(a)} {hx(b)}"
+    elif k == "root":
+        t, x, deg = root_case(rng, w, n, sg)
+        r = f"{hx(x)} {deg}"
+    elif k == "sqrt":
+        t, x, _ = root_case(rng, w, n, False)
+        r = hx(x)
+    elif k == "cbrt":
+        t, x, _ = root_case(rng, w, n, sg)
+        r = hx(x)
+    else:
+        raise ValueError(kind)
+    return modes(r, t) if m else [(r, t)]
+
+
+def _fix_kind(kind):
+    # `m_abc` (nt_mul_add) takes three values, `abc` (carrying_add) two values and a carry bit
+    return "m_abc3" if kind == "m_abc" else kind
+
+
+def _group_requests(rng, group, W, s, wide):
+    """one repetition: every function of the vocabulary once -> [(op, rest, tag, members)]"""
+    sg = s == "i"
+    reqs = []
+
+    def put(tab, members=None):
+        for op, kind in tab:
+            wk, nk = wn(rng.choice(group))
+            for rest, t in _args(rng, _fix_kind(kind), wk, nk, sg):
+                reqs.append((op, rest, t, members))
+    put(V01_BOTH + (V01_I if sg else V01_U))
+    put(V02_BOTH + ([] if sg else V02_U))
+    put(V03_BOTH)
+    put(V05_BOTH)
+    put(V06_BOTH + ([] if sg else V06_U))
+    put(V07_BOTH + (V07_I if sg else []))
+    put(V08_BOTH)
+    if not wide:
+        put(V10_BOTH)
+        put(V12_BOTH * 3)
+    else:
+        put(rng.sample(V10_BOTH, 3))
+        put(V12_BOTH)
+    put(V14_BOTH)
+    put(V15_BOTH)
+    put(V18_BOTH + (V18_I if sg else []))
+    put(rng.sample(V18_TWINS, 5))
+    put(rng.sample(V19_FLOAT, 2))
+    for p in rng.sample(sorted(PRIMS19), 3):
+        wk, nk = wn(rng.choice(group))
+        t, v = prim_value(rng, p, W, sg)
+        reqs.append((f"from_{p}", hx(v), t, None))
+        t, a = big_value(rng, wk, nk, p)
+        reqs.append((f"to_{p}", hx(a), t, None))
+        t, a = big_value(rng, wk, nk, p)
+        reqs.append((f"as_{p}", hx(a), t, None))
+    # more division shapes per group (exact multiples, extreme quotient digits, Knuth add-back operands),
+    # each built for one member's digit size and run on all members (added after seeded change C16-r4m1)
+    for cfgk in group:
+        wk, nk = wn(cfgk)
+        for _k in range(2):
+            t, a, b = div_pair(rng, wk, nk, sg)
+            reqs.append((rng.choice(["checked_div", "checked_rem", "checked_div_euclid", "checked_rem_euclid"]), f"{hx(a)} {hx(b)}", t, None))
+        if nk >= 2:
+            d = rng.randrange(1 << wk, 1 << (wk * rng.randrange(2, nk + 1))) if nk > 2 else rng.randrange(1 << wk, 1 << (2 * wk))
+            q = rng.randrange(1, max(2, (1 << W) // d))
+            a, b = q * d, d
+            if sg:
+                a, b = a % (1 << (W - 1)), b % (1 << (W - 1)) or 1
+            reqs.append((rng.choice(["checked_div", "checked_rem"]), f"{hx(a)} {hx(b)}", "exact-multiple", None))
+        if nk >= 3 and not sg and nk <= 24:
+            for (u, v) in addback_pairs(rng, wk, nk, 1, tries=1500):
+                reqs.append(("checked_div", f"{hx(u)} {hx(v)}", "knuth-addback", None))
+                reqs.append(("checked_rem", f"{hx(u)} {hx(v)}", "knuth-addback", None))
+    # operator forms (std::ops traits) where the c17 bin has more than one digit type of this width
+    g17 = GROUPS17.get(W)
+    if g17:
+        for mode in ("dbg", "rel"):
+            for op, kd in (("add", "ab"), ("sub", "ab"), ("bitand", "ab"), ("bitor", "ab"), ("bitxor", "ab"), ("mul", "mul"), ("div", "div"), ("rem", "div")):
+                wk, nk = wn(rng.choice(g17))
+                rest, t = _args(rng, kd, wk, nk, sg)[0]
+                reqs.append((f"{op}_{rng.choice(FORMS17)}", f"{mode} {rest}", t, g17))
+            wk, nk = wn(rng.choice(g17))
+            t, a = value(rng, wk, nk)
+            reqs.append((f"not_{rng.choice(['v', 'r', 'inh'])}", f"{mode} {hx(a)}", t, g17))
+            if sg:
+                reqs.append((f"neg_{rng.choice(['v', 'r', 'inh'])}", f"{mode} {hx(a)}", t, g17))
+            for sh in ("shl", "shr"):
+                ty = rng.choice(sorted(PRIM17))
+                bits, tsg = PRIM17[ty]
+                lo, hi = (-(1 << (bits - 1)), (1 << (bits - 1)) - 1) if tsg else (0, (1 << bits) - 1)
+                k = max(lo, min(hi, rng.choice([0, 1, W - 1, W, W + 1, 2 * W, -1, -W, lo, hi, (1 << 32) - 1, 1 << 32, (1 << 32) + W, rng.randrange(W), rng.randrange(W)])))
+                t, a = value(rng, wk, nk)
+                reqs.append((f"{sh}_{ty}_{rng.choice(SFORMS17)}", f"{mode} {hx(a)} {k}", t, g17))
+                reqs.append((f"{sh}_u32_inh", f"{mode} {hx(a)} {rng.choice([0, 1, W - 1, W, W + 1, rng.randrange(W), (1 << 32) - 1])}", t, g17))
+                kk = rng.choice([0, 1, W - 1, W, W + 1, rng.randrange(W), (1 << W) - 1, 1 << (W - 1), (1 << 32) % (1 << W)])
+                reqs.append((f"{sh}_{rng.choice(['bu', 'bi'])}_{rng.choice(SFORMS17)}", f"{mode} {hx(a)} {hx(kk)}", t, g17))
+            cnt = rng.choice([0, 1, 2, 3, 4, 5, 8, 9, 17])
+            small = rng.random() < 0.6
+            xs = [(pat(rng.randrange(0, 12) - (5 if sg else 0), W) if small else value(rng, wk, nk)[1]) for _ in range(cnt)]
+            lst = ",".join(hx(x) for x in xs) or "-"
+            for op in ("sum", "sum_ref", "product", "product_ref"):
+                reqs.append((op, f"{mode} {lst}", "fold", g17))
+            reqs.append(("default", mode, "default", g17))
+            t, a, b = cmp_pair(rng, wk, nk)
+            for op in rng.sample(["cmp_partial_cmp", "cmp_ord_cmp", "cmp_cmp_inh", "cmp_eq", "cmp_eq_inh", "cmp_ne", "cmp_lt", "cmp_le", "cmp_gt", "cmp_ge"], 3):
+                reqs.append((op, f"{mode} {hx(a)} {hx(b)}", t, g17))
+    return reqs
+
+
+def _huge_requests(rng, s):
+    """8192 bits from all four digit types: a few dense requests per family"""
+    sg = s == "i"
+    reqs = []
+    cfg = rng.choice(HUGE_GROUP)
+    w, n = wn(cfg)
+    W = w * n
+    vals = huge_values(rng, cfg) + [value(rng, w, n)[1] for _ in range(3)]
+    a, b = rng.choice(vals), rng.choice(vals)
+    for op in ("overflowing_add", "overflowing_sub", "saturating_add", "checked_sub", "abs_diff", rng.choice(["overflowing_mul", "checked_mul", "saturating_mul"]),
+               "bitxor", "bitand", "cmp", "lt", "max"):
+        a, b = rng.choice(vals), rng.choice(vals)
+        reqs.append((op, f"{hx(a)} {hx(b)}", "huge"))
+    for op in rng.sample(["checked_div", "checked_rem", "checked_rem_euclid", "overflowing_div_euclid", "wrapping_div"], 3):
+        t, a, b = div_pair(rng, w, n, sg)
+        reqs.append((op, f"{hx(a)} {hx(b)}", "huge-" + t))
+    for op in ("overflowing_neg", "not", "count_ones", "leading_zeros", "trailing_zeros", "leading_ones", "bits", "reverse_bits", "swap_bytes",
+               "checked_ilog2", "is_power_of_two", "to_be", "to_f64", "to_f32", "as_u64", "to_i128"):
+        reqs.append((op, hx(rng.choice(vals)), "huge"))
+    for op in ("overflowing_shl", "overflowing_shr", "checked_shl", "wrapping_shr", "rotate_left", "rotate_right", "unbounded_shr"):
+        reqs.append((op, f"{hx(rng.choice(vals))} {_amount(rng, w, W)}", "huge"))
+    # (the model's square-and-multiply at 8192 bits is slow: small exponents only; the full exponent range runs at <= 512 bits)
+    reqs.append((rng.choice(["overflowing_pow", "checked_pow", "saturating_pow"]), f"{hx(rng.choice(vals))} {rng.choice([0, 1, 2, 3, 5])}", "huge"))
+    reqs.append(("bit", f"{hx(rng.choice(vals))} {rng.choice([0, W - 1, W, rng.randrange(W)])}", "huge"))
+    z = rng.choice([0, (1 << W) - 1, 1 << (W - 1), (1 << (W - 1)) - 1, rng.randrange(1 << W)])
+    if rng.random() < 0.25:
+        reqs.append(("from_str_radix", f"10 {str(z).encode().hex()}", "huge-dec"))
+    reqs.append(("from_str_radix", f"16 {format(z, 'x').encode().hex()}", "huge-hex"))
+    reqs.append(("to_str_radix", f"16 {hx(rng.choice(vals))}", "huge"))
+    if rng.random() < 0.25:
+        reqs.append(("to_str_radix", f"10 {hx(rng.choice(vals))}", "huge"))
+    reqs.append(("fmt", f"{rng.choice(['lower_hex', 'binary', 'octal', 'display'])} {rng.choice(FMT_FLAGS)} - {hx(rng.choice(vals))}", "huge"))
+    t, bs = slice_case(rng, w, n, sg)
+    reqs.append(("from_be_slice", _hexb(bs), "huge-" + t))
+    return reqs
+
+
+# ---------------------------------------------------------------------------------------------- (ii) extension
+ADD_FORMS = ["checked_{}", "overflowing_{}", "wrapping_{}", "saturating_{}", "strict_{}"]
+DIV_FORMS = {"div": ["checked_div", "overflowing_div", "wrapping_div", "saturating_div", "div", "strict_div"],
+             "rem": ["checked_rem", "overflowing_rem", "wrapping_rem", "rem", "strict_rem"],
+             "div_euclid": ["checked_div_euclid", "overflowing_div_euclid", "wrapping_div_euclid", "div_euclid", "strict_div_euclid"],
+             "rem_euclid": ["checked_rem_euclid", "overflowing_rem_euclid", "wrapping_rem_euclid", "rem_euclid", "strict_rem_euclid"]}
+POW_FORMS = ["checked_pow", "overflowing_pow", "wrapping_pow", "saturating_pow", "strict_pow"]
+SHL_FORMS = ["checked_shl", "overflowing_shl", "wrapping_shl", "unbounded_shl", "strict_shl"]
+
+
+def _sized(rng, bits, sg):
+    """an integer of (at most) the given bit length, either sign when signed"""
+    if bits <= 0:
+        return 0
+    z = rng.choice([(1 << bits) - 1, 1 << (bits - 1), (1 << (bits - 1)) + 1, rng.randrange(1 << (bits - 1), 1 << bits)])
+    return -z if (sg and rng.random() < 0.5) else z
+
+
+def _ext_cases(rng, wn_, nn, sg, small_exp=False):
+    """value-level requests whose EXACT result is representable in the narrow type:
+    yields (op, [exact operand ints], trailing-args, tag, kind) with kind 'ext' (answer is a value) or 'same'"""
+    Wn = wn_ * nn
+    lo, hi = (-(1 << (Wn - 1)), (1 << (Wn - 1)) - 1) if sg else (0, (1 << Wn) - 1)
+
+    def val():
+        t, a = value(rng, wn_, nn)
+        return to_signed(a, Wn) if sg else a
+    inr = lambda z: lo <= z <= hi
+    # add / sub: sums exactly at / next to MIN and MAX, and random representable ones
+    for opn, f in (("add", lambda a, t: t - a), ("sub", lambda a, t: a - t)):
+        for _ in range(2):
+            a = val()
+            t = rng.choice([hi, hi - 1, lo, lo + 1, 0, -1 if sg else 1, rng.randint(lo, hi)])
+            b = f(a, t)
+            if inr(b):
+                yield rng.choice(ADD_FORMS).format(opn), [a, b], "", "sum-at-limit", "ext"
+    # mul: products just inside the limits, exactly MIN, short operands
+    for _ in range(3):
+        c = rng.randrange(4)
+        if c == 0 and sg:
+            k = rng.randrange(0, Wn)
+            a, b = -(1 << k), 1 << (Wn - 1 - k)
+            if rng.random() < 0.5:
+                a, b = b, a
+        elif c <= 2:
+            a = _sized(rng, rng.randrange(1, Wn), sg) or 1
+            t = rng.choice([hi, lo, hi - 1, rng.randint(lo, hi)])
+            b = next((q for q in (t // a, -((-t) // a)) if inr(q) and inr(a * q)), 0)
+        else:
+            t_, pa, pb = mul_pair(rng, wn_, nn, sg)
+            a, b = (to_signed(pa, Wn), to_signed(pb, Wn)) if sg else (pa, pb)
+        if inr(a) and inr(b) and inr(a * b):
+            yield rng.choice(ADD_FORMS).format("mul"), [a, b], "", "product-at-limit", "ext"
+    # div / rem in all four flavours (the quotient of representable operands is representable except MIN / -1)
+    for _ in range(3):
+        t_, pa, pb = div_pair(rng, wn_, nn, sg)
+        a, b = (to_signed(pa, Wn), to_signed(pb, Wn)) if sg else (pa, pb)
+        if b == 0:
+            continue
+        for fam in rng.sample(sorted(DIV_FORMS), 2):
+            if sg and a == lo and b == -1:
+                # the exact remainder 0 IS representable: the wrapping forms agree (the checked ones report the overflow of the quotient)
+                if fam.startswith("rem"):
+                    yield "wrapping_" + fam, [a, b], "", "min/-1", "ext"
+                continue
+            yield rng.choice(DIV_FORMS[fam]), [a, b], "", "div-" + t_, "ext"
+    if sg:
+        yield "wrapping_rem", [lo, -1], "", "min/-1", "ext"
+        yield "wrapping_rem_euclid", [lo, -1], "", "min/-1", "ext"
+    # pow: exponents up to the width (and far beyond for 0, 1, -1), powers exactly at MIN / next to MAX
+    for _ in range(3):
+        c = rng.randrange(5)
+        if c == 0:
+            x, e = rng.choice([0, 1, -1 if sg else 1]), rng.choice([0, 1, 2, Wn - 1, Wn, Wn + 1, (1 << 32) - 1, (1 << 32) - 2, rng.randrange(1 << 32)])
+        elif c == 1:
+            x = -2 if (sg and rng.random() < 0.6) else 2
+            e = rng.choice([Wn - 1, Wn - 2, Wn - 3, rng.randrange(Wn)])
+        else:
+            x = _sized(rng, rng.randrange(2, max(3, Wn // 2)), sg)
+            if abs(x) < 2:
+                x = 3
+            emax = 0
+            while inr(x ** (emax + 1)) and emax < Wn + 2:
+                emax += 1
+            e = rng.choice([emax, emax, max(0, emax - 1), rng.randrange(emax + 1)])
+        if abs(x) <= 1:
+            p = 1 if e == 0 else (x if x >= 0 else (1 if e % 2 == 0 else -1))
+        else:
+            p = x ** e if e <= Wn + 2 else None
+        if small_exp and e > 3:
+            # (the MODEL's square-and-multiply over >= 512 digits is slow; long exponent chains run on the other pairs)
+            e = rng.randrange(4)
+            p = x ** e
+        if p is not None and e < (1 << 32) and inr(x) and inr(p):
+            if rng.random() < 0.2:
+                yield "pow", [x], f"{e}", "pow", "ext-mode"
+            else:
+                yield rng.choice(POW_FORMS), [x], f"{e}", "pow", "ext"
+    # shl: both signs, the shifted value exactly at MIN / just inside MAX
+    for _ in range(3):
+        k = rng.randrange(0, Wn)
+        room = Wn - k - (1 if sg else 0)
+        c = rng.randrange(3)
+        if c == 0 and sg:
+            y = -(1 << room)                                    # y << k == MIN
+        elif c == 1:
+            y = (1 << room) - 1 if room > 0 else 0
+            if sg and rng.random() < 0.5:
+                y = -y
+        else:
+            y = _sized(rng, rng.randrange(0, room + 1), sg)
+        if inr(y) and inr(y << k):
+            if rng.random() < 0.2:
+                yield "shl", [y], f"{k}", "shl", "ext-mode"
+            else:
+                yield rng.choice(SHL_FORMS), [y], f"{k}", "shl", "ext"
+    # comparisons
+    t_, pa, pb = cmp_pair(rng, wn_, nn)
+    a, b = (to_signed(pa, Wn), to_signed(pb, Wn)) if sg else (pa, pb)
+    for op in rng.sample(["cmp", "lt", "le", "gt", "ge", "eq", "ne", "op_lt", "op_eq", "ord_cmp", "partial_cmp"], 4):
+        yield op, [a, b], "", "cmp", "same"
+    yield rng.choice(["max", "min", "ord_max", "ord_min"]), [a, b], "", "cmp", "ext"
+    c = val()
+    yield "clamp", [c, min(a, b), max(a, b)], "", "cmp", "ext"
+
+
+def _mk(op, cfg, s, W, zs, trail):
+    vals = " ".join(hx(pat(z, W)) for z in zs)
+    return f"{op} {s}{cfg} {vals}" + (f" {trail}" if trail != "" else "")
 
 
 def gen(rng, tier):
@@ -64,116 +593,102 @@ def gen(rng, tier):
         lines.append((l, tag))
         return len(lines) - 1
 
-    reps = 40 if tier == "thorough" else 6
+    def emit_same(op, s, rest, tag, members):
+        ids = [emit(f"{op} {s}{cfg}" + (f" {rest}" if rest != "" else ""), tag) for cfg in members]
+        for j in ids[1:]:
+            PAIRS.append((ids[0], j, "same", None))
+
+    thorough = tier == "thorough"
     # (i) equal width, different digit types
     for W, group in GROUPS.items():
-        if W == 320 and tier != "thorough":
-            group = ["16x20", "64x5"]
-        w0, n0 = wn(group[0])
+        reps = (12 if W <= 192 else 6) if thorough else (3 if W <= 192 else 2)
         for _ in range(reps):
             for s in "ui":
-                reqs = []
-                for op in BIN2:
-                    if "mul" in op:
-                        t, a, b = mul_pair(rng, w0, n0, s == "i")
-                    elif "div" in op or "rem" in op:
-                        # operands shaped for the digits of a RANDOM member of the group: a divisor that spans two
-                        # digits of one digit type is a single digit (or four) of another
-                        wk, nk = wn(rng.choice(group))
-                        t, a, b = div_pair(rng, wk, nk, s == "i")
-                    else:
-                        t, a, b = pair(rng, w0, n0)
-                    reqs.append((op, f"{hx(a)} {hx(b)}", t))
-                for op in UN1:
-                    t, a = value(rng, w0, n0)
-                    reqs.append((op, hx(a), t))
-                for op in SHIFT:
-                    t, a = value(rng, w0, n0)
-                    reqs.append((op, f"{hx(a)} {rng.choice([0, 1, 7, 8, 9, 15, 16, 17, 31, 32, 33, 63, 64, 65, W - 1, W, W + 1, rng.randrange(W)])}", t))
-                t, a = value(rng, w0, n0)
-                reqs.append(("overflowing_pow", f"{hx(a % 17 if rng.random() < 0.5 else a)} {rng.randrange(0, 40)}", t))
-                t, a = value(rng, w0, n0)
-                reqs.append(("to_str_radix", f"10 {hx(a)}", t))
-                z = rng.choice([0, 1, (1 << W) - 1, 1 << (W - 1), (1 << (W - 1)) - 1, rng.randrange(1 << W)])
-                sgn = "-" if (s == "i" and rng.random() < 0.5) else ""
-                reqs.append(("from_str_radix", f"10 {(sgn + str(z)).encode().hex()}", "dec"))
-                # more division shapes per group (exact multiples, extreme quotient digits, Knuth add-back operands),
-                # each built for one member's digit size and run on all members (added after seeded change C16-r4m1)
-                for cfgk in group:
-                    wk, nk = wn(cfgk)
-                    for _k in range(3):
-                        t, a, b = div_pair(rng, wk, nk, s == "i")
-                        reqs.append((rng.choice(["checked_div", "checked_rem", "checked_div_euclid", "checked_rem_euclid"]), f"{hx(a)} {hx(b)}", t))
-                    if nk >= 2:
-                        d = rng.randrange(1 << wk, 1 << (wk * rng.randrange(2, nk + 1))) if nk > 2 else rng.randrange(1 << wk, 1 << (2 * wk))
-                        q = rng.randrange(1, max(2, (1 << W) // d))
-                        a, b = q * d, d
-                        if s == "i":
-                            a, b = a % (1 << (W - 1)), b % (1 << (W - 1)) or 1
-                        reqs.append((rng.choice(["checked_div", "checked_rem"]), f"{hx(a)} {hx(b)}", "exact-multiple"))
-                    if nk >= 3 and s == "u":
-                        for (u, v) in addback_pairs(rng, wk, nk, 1):
-                            reqs.append(("checked_div", f"{hx(u)} {hx(v)}", "knuth-addback"))
-                            reqs.append(("checked_rem", f"{hx(u)} {hx(v)}", "knuth-addback"))
-                for op, rest, t in reqs:
-                    ids = []
-                    for cfg in group:
-                        if op in ("to_str_radix", "from_str_radix"):
-                            r, x = rest.split(" ", 1)
-                            ids.append(emit(f"{op} {s}{cfg} {r} {x}", t))
-                        else:
-                            ids.append(emit(f"{op} {s}{cfg} {rest}", t))
-                    for j in ids[1:]:
-                        PAIRS.append((ids[0], j, "same", None))
+                for op, rest, t, members in _group_requests(rng, group, W, s, W > 192):
+                    emit_same(op, s, rest, t, members or group)
+    for _ in range(6 if thorough else 2):
+        for s in "ui":
+            for op, rest, t in _huge_requests(rng, s):
+                emit_same(op, s, rest, t, HUGE_GROUP)
+    # (ia) the `As` cast between the representations of equal width: the identity on the pattern (also TryFrom,
+    #      and the reinterpreting casts to the other signedness); bin c09 inside its grid (<= 192 bits), the
+    #      `cast_set!`s of bin c16 for every other member of GROUPS and for 8192 bits
+    sets = {W: list(g) for W, g in GROUPS.items()}
+    for W, g in CAST_GROUPS.items():
+        sets[W] = sorted(set(sets.get(W, []) + g), key=lambda c: wn(c)[0])
+    sets[8192] = HUGE_GROUP
+    for W, group in sets.items():
+        for _ in range((12 if thorough else 4) if W <= 512 else (4 if thorough else 1)):
+            for src in group:
+                for dst in group:
+                    ws, ns_ = wn(src)
+                    t, a = value(rng, ws, ns_)
+                    if W > 512 and rng.random() < 0.7:
+                        # dense digits: every digit position carries information (index arithmetic over > 255 digits)
+                        t, a = "huge", rng.choice(huge_values(rng, src)[:6])
+                    for ss in "ui":
+                        for ds in "ui":
+                            if (src == dst and ss == ds) or not _cast_bin(ss + src, ds + dst):
+                                continue
+                            i = emit(f"cast {ss}{src} {ds}{dst} {hx(a)}", t)
+                            PAIRS.append((i, i, "lit", hx(a)))
+                            if ss == ds and src in CAST_TYPES and dst in CAST_TYPES:
+                                i = emit(f"try {ss}{src} {ds}{dst} {hx(a)}", t)
+                                PAIRS.append((i, i, "lit", f"Ok({hx(a)})"))
     # (ii) narrow vs wide
-    for narrow, wide in (EXT_THOROUGH if tier == "thorough" else EXT):
+    for narrow, wide in (EXT_THOROUGH if thorough else EXT):
         wn_, nn = wn(narrow)
         ww, nw = wn(wide)
         Wn, Ww = wn_ * nn, ww * nw
-        for _ in range(reps * 2):
+        huge = Ww >= 4096
+        for _ in range((10 if huge else 40) if thorough else (3 if huge else 8)):
             for s in "ui":
                 sg = s == "i"
                 lo, hi = (-(1 << (Wn - 1)), (1 << (Wn - 1)) - 1) if sg else (0, (1 << Wn) - 1)
-                t, a, b = pair(rng, wn_, nn)
-                za, zb = (to_signed(a, Wn), to_signed(b, Wn)) if sg else (a, b)
-                cand = [("checked_add", za + zb), ("checked_sub", za - zb), ("checked_mul", za * zb)]
-                if zb != 0 and not (sg and za == lo and zb == -1):
-                    cand += [("checked_div", None), ("checked_rem", None)]
-                for op, exact in cand:
-                    if exact is not None and not (lo <= exact <= hi):
-                        # make the product/sum representable by shrinking an operand
+                for op, zs, trail, tag, kind in _ext_cases(rng, wn_, nn, sg, small_exp=nw >= 256):
+                    if kind == "ext-mode":
+                        for mode in ("dbg", "rel"):
+                            i = emit(f"{op} {s}{narrow} {mode} {hx(pat(zs[0], Wn))} {trail}", tag)
+                            j = emit(f"{op} {s}{wide} {mode} {hx(pat(zs[0], Ww))} {trail}", tag)
+                            PAIRS.append((i, j, "ext", (Wn, Ww, sg)))
                         continue
-                    i = emit(f"{op} {s}{narrow} {hx(a)} {hx(b)}", t)
-                    j = emit(f"{op} {s}{wide} {hx(ext(a, Wn, Ww, sg))} {hx(ext(b, Wn, Ww, sg))}", t)
-                    PAIRS.append((i, j, "ext", (Wn, Ww, sg)))
-                for op in ("cmp", "lt", "eq"):
-                    i = emit(f"{op} {s}{narrow} {hx(a)} {hx(b)}", t)
-                    j = emit(f"{op} {s}{wide} {hx(ext(a, Wn, Ww, sg))} {hx(ext(b, Wn, Ww, sg))}", t)
+                    i = emit(_mk(op, narrow, s, Wn, zs, trail), tag)
+                    j = emit(_mk(op, wide, s, Ww, zs, trail), tag)
+                    PAIRS.append((i, j, kind, (Wn, Ww, sg) if kind == "ext" else None))
+                # decimal printing (to_str_radix, Display) and parsing (from_str_radix, FromStr, parse_bytes)
+                for z in (rng.randrange(lo, hi + 1), rng.choice([lo, hi, lo + 1, hi - 1, 0, -1 if sg else 1, 10 ** rng.randrange(0, len(str(hi))),
+                                                                 -(10 ** rng.randrange(0, len(str(hi)))) if sg else 9])):
+                    if not lo <= z <= hi:
+                        continue
+                    i = emit(f"to_str_radix {s}{narrow} 10 {hx(pat(z, Wn))}", "dec")
+                    j = emit(f"to_str_radix {s}{wide} 10 {hx(pat(z, Ww))}", "dec")
                     PAIRS.append((i, j, "same", None))
-                # small products / powers / shifts that stay representable
-                x = rng.randrange(0, 1 << max(1, Wn // 3))
-                e = rng.randrange(0, 3)
-                if sg and rng.random() < 0.5:
-                    x = -x
-                if lo <= x ** e <= hi and lo <= x <= hi:
-                    i = emit(f"checked_pow {s}{narrow} {hx(pat(x, Wn))} {e}", "pow")
-                    j = emit(f"checked_pow {s}{wide} {hx(pat(x, Ww))} {e}", "pow")
+                    fl, wd = rng.choice(FMT_FLAGS), rng.choice(["-", "-", 0, 5, 12, 40])
+                    i = emit(f"fmt {s}{narrow} display {fl} {wd} {hx(pat(z, Wn))}", "dec")
+                    j = emit(f"fmt {s}{wide} display {fl} {wd} {hx(pat(z, Ww))}", "dec")
+                    PAIRS.append((i, j, "same", None))
+                    txt = ("-" if z < 0 else rng.choice(["", "", "+"])) + "0" * rng.choice([0, 0, 1, 3, Wn]) + str(abs(z))
+                    op, pre = rng.choice([("from_str_radix", "10 "), ("from_str", ""), ("parse_bytes", "10 ")])
+                    i = emit(f"{op} {s}{narrow} {pre}{txt.encode().hex()}", "dec")
+                    j = emit(f"{op} {s}{wide} {pre}{txt.encode().hex()}", "dec")
                     PAIRS.append((i, j, "ext", (Wn, Ww, sg)))
-                k = rng.randrange(0, Wn)
-                y = rng.randrange(0, 1 << max(1, Wn - k - 1))
-                if lo <= (y << k) <= hi:
-                    i = emit(f"checked_shl {s}{narrow} {hx(y)} {k}", "shl")
-                    j = emit(f"checked_shl {s}{wide} {hx(y)} {k}", "shl")
-                    PAIRS.append((i, j, "ext", (Wn, Ww, sg)))
-                z = rng.randrange(lo, hi + 1)
-                i = emit(f"to_str_radix {s}{narrow} 10 {hx(pat(z, Wn))}", "dec")
-                j = emit(f"to_str_radix {s}{wide} 10 {hx(pat(z, Ww))}", "dec")
-                PAIRS.append((i, j, "same", None))
-                i = emit(f"from_str_radix {s}{narrow} 10 {str(z).encode().hex()}", "dec")
-                j = emit(f"from_str_radix {s}{wide} 10 {str(z).encode().hex()}", "dec")
-                PAIRS.append((i, j, "ext", (Wn, Ww, sg)))
+                # the extension itself, performed by the crate (`As` between bnum types): wide pattern = ext(narrow pattern);
+                # and back: truncation returns the narrow pattern
+                if _cast_bin(s + narrow, s + wide):
+                    for _k in range(2):
+                        t, a = value(rng, wn_, nn)
+                        i = emit(f"cast {s}{narrow} {s}{wide} {hx(a)}", t)
+                        PAIRS.append((i, i, "lit", hx(ext(a, Wn, Ww, sg))))
+                        i = emit(f"cast {s}{wide} {s}{narrow} {hx(ext(a, Wn, Ww, sg))}", t)
+                        PAIRS.append((i, i, "lit", hx(a)))
+                        o = "iu"[sg]
+                        i = emit(f"cast {s}{narrow} {o}{wide} {hx(a)}", t)       # the SOURCE's signedness decides the extension
+                        PAIRS.append((i, i, "lit", hx(ext(a, Wn, Ww, sg))))
+                    if narrow in CAST_TYPES and wide in CAST_TYPES:
+                        i = emit(f"try {s}{narrow} {s}{wide} {hx(a)}", t)
+                        PAIRS.append((i, i, "lit", f"Ok({hx(ext(a, Wn, Ww, sg))})"))
     # (iii) constants and aliases
-    for cfg in cfgs(tier):
+    for cfg in ALL_CFGS:
         for s in "ui":
             for c in CONSTS + (NEGS if s == "i" else []):
                 emit(f"const {s}{cfg} {c}", "const")
@@ -198,7 +713,7 @@ def _ext_answer(r, info):
 def post(ctx, lines, R, mo_sp):
     bad = []
     off = ctx.get("line_offset", 0)
-    n_same = n_ext = 0
+    n_same = n_ext = n_lit = 0
     for i, j, kind, info in PAIRS:
         i += off
         j += off
@@ -206,9 +721,18 @@ def post(ctx, lines, R, mo_sp):
             a, b = outs[i], outs[j]
             if "skip" in (a, b):
                 continue
-            if kind == "same":
+            if kind == "lit":
+                n_lit += 1
+                if a != info:
+                    bad.append({"line": lines[i], "mode": mode, "crate": a,
+                                "spec": info + "  (the As cast / TryFrom between representations of one value keeps the value)", "model": mo_sp[i]})
+            elif kind == "same":
                 n_same += 1
                 if a != b:
+                    sp = mo_sp[i].split("\t", 1)[-1]
+                    if a.startswith("Err") and b.startswith("Err") and ("*" in sp or "|" in sp):
+                        # the error KIND for over-long malformed strings is left open by C10 (and by `indep_*_parse`)
+                        continue
                     bad.append({"line": lines[i] + "   vs   " + lines[j], "mode": mode, "crate": a + " vs " + b,
                                 "spec": "identical answers (result depends only on width, signedness and value)", "model": mo_sp[i]})
             else:
@@ -216,13 +740,14 @@ def post(ctx, lines, R, mo_sp):
                 if _ext_answer(a, info) != b:
                     bad.append({"line": lines[i] + "   vs   " + lines[j], "mode": mode, "crate": a + " vs " + b,
                                 "spec": "wide answer = extension of the narrow answer: " + _ext_answer(a, info), "model": mo_sp[i]})
-    ctx["c16_counts"] = {"same_result_pairs": n_same, "extension_pairs": n_ext}
+    ctx["c16_counts"] = {"same_result_pairs": n_same, "extension_pairs": n_ext, "cast_identity_checks": n_lit,
+                         "functions_sent": len(set(l.split(" ", 1)[0] for l in lines))}
     return bad
 
 
 def evidence_extra(ctx):
     d = dict(ctx.get("c16_counts", {}))
-    d["alias_table_regenerated_from"] = "/repo/src/types.rs -> lean/Bnum/Generated/Aliases.lean (theorem aliases_ok re-checked by the kernel)"
+    d["alias_table_regenerated_from"] = "/repo/src/types.rs -> lean/Bnum/Generated/Aliases.lean (theorems aliases_ok, and aliases_generated: = the model's table, re-checked by the kernel)"
     return d
 
 
@@ -258,6 +783,12 @@ def pre(ctx):
     rc, out, err = ctx["run"](["lake", "build", "Bnum.Generated.Aliases"], cwd=ctx["lean"], timeout=1800)
     if rc != 0:
         problems.append("generated alias table theorem failed: " + (out + err)[-800:])
+    elif old != lean:
+        # the table changed: theorem `aliases_generated` (Props/C16.lean) ties the MODEL's table (Model/Consts.lean, which the
+        # `alias` requests and the theorems `aliases_*` are about) to the generated one — re-check it in this very run
+        rc, out, err = ctx["run"](["lake", "build", "Bnum.Props.C16"], cwd=ctx["lean"], timeout=3600)
+        if rc != 0:
+            problems.append("the alias table of types.rs changed and no longer equals the model's table (theorem aliases_generated): " + (out + err)[-800:])
     if set(u for _, u, _ in rows) | set(i for _, _, i in rows) != set(ALIASES):
         problems.append("alias set in types.rs differs from the expected U128..U8192 / I128..I8192")
     return problems
